@@ -201,6 +201,12 @@ fn sink_strategy() -> impl Strategy<Value = SinkSpec> {
     ]
 }
 
+/// Number of write calls of a build into a sink accepting at most `cap` bytes per call.
+fn count_writes_capped(pairs: &Pairs, set: bool, cap: usize) -> u64 {
+    let s = ScriptSink::new(vec![], cap);
+    drive(s, pairs, set).map(|w| w.inner.writes).unwrap_or(0)
+}
+
 /// Number of write calls a plain build makes.
 fn count_writes(pairs: &Pairs, set: bool) -> u64 {
     let s = ScriptSink::new(vec![], usize::MAX);
@@ -246,16 +252,56 @@ pub fn run(e: &Engine) {
         |c| c.to_json(),
         check,
     );
+    // "bytes_written() always equals the number of bytes the sink has accepted so far" — also
+    // right after a call that failed half-way through a buffer (sink accepts <= 3 bytes per
+    // call and fails at write index i, for every i)
+    let mut fault_cases: Vec<(Pairs, bool)> = smalls.iter().filter(|s| !s.0.is_empty()).cloned().collect();
+    // interior nodes with 6- and 8-byte outputs are written *during* later inserts, in several chunks
+    fault_cases.push((vec![(b"aa".to_vec(), 1 << 40), (b"ab".to_vec(), 3), (b"b".to_vec(), 0), (b"ca".to_vec(), u64::MAX), (b"cb".to_vec(), 1), (b"d".to_vec(), 5)], false));
+    fault_cases.push(((0u16..60).map(|b| (vec![b'w', (b % 3) as u8 + b'a', b as u8], crate::engine::mix(b as u64, 0xfa7))).collect::<std::collections::BTreeMap<_, _>>().into_iter().collect(), false));
+    e.run_list("bytes-written-after-a-failed-call", &fault_cases, |c| json!({"pairs": pairs_json(&c.0), "set": c.1, "faulted": true}), |(pairs, set), rec| {
+        use crate::sinks::{FaultKind, FaultSink};
+        for cap in [1usize, 2, 3, 5] {
+        let w = count_writes_capped(pairs, *set, cap);
+        for i in 0..w {
+            for kind in [FaultKind::Other, FaultKind::OkZero] {
+                rec.eval();
+                let (sink, st) = FaultSink::new(Some(i), false, kind, cap);
+                let mut b = match fst::raw::Builder::new(sink) {
+                    Ok(b) => b,
+                    Err(_) => continue, // fault inside new(): no builder to inspect
+                };
+                for (k, v) in pairs {
+                    let r = if *set { b.add(k) } else { b.insert(k, *v) };
+                    let accepted = st.borrow().data.len() as u64;
+                    vensure!(b.bytes_written() == accepted, "bytes-written-after-fault", "bytes_written()={} but the sink has accepted {} bytes after insert returned {} (sink accepts a few bytes per call and fails at write #{}); keys {}", b.bytes_written(), accepted, if r.is_ok() { "Ok" } else { "Err" }, i, crate::oracle::keys_show(pairs));
+                    if r.is_err() {
+                        rec.class("bytes_written_checked_after_failed_insert");
+                        if accepted > st.borrow().data.len() as u64 - 0 && b.bytes_written() > 0 {
+                            rec.class("failed_insert_after_partial_acceptance");
+                        }
+                        break;
+                    }
+                }
+            }
+        }
+        }
+        rec.nontrivial(H::new().pairs(pairs).u(0xfa).get());
+        Ok(())
+    });
     // files beyond 64 KiB through short-writing sinks (byte counter / address arithmetic far from the start)
-    let mediums: Vec<Case> = (0..e.tier.pick(4u64, 20)).map(|i| {
-        let r = gen::Recipe { kind: 1, n: 12_000 + 3_000 * i, seed: crate::engine::mix(e.seed, 700 + i), fanout: 5, keylen: 12, values: (i % 3) as u8 };
+    let mediums: Vec<Case> = (0..e.tier.pick(12u64, 40)).map(|i| {
+        let r = gen::Recipe { kind: 1, n: 12_000 + 1_700 * i, seed: crate::engine::mix(e.seed, 700 + i), fanout: 5, keylen: 12, values: (i % 3) as u8 };
         let script: Vec<Act> = (0..400).map(|j| match crate::engine::mix(e.seed ^ i, j) % 5 { 0 => Act::Interrupted, 1 => Act::AllButOne, 2 => Act::Accept(1), _ => Act::Accept(usize::MAX) }).collect();
-        Case { pairs: r.pairs(), set: r.values == 0, sink: if i % 2 == 0 { SinkSpec::Script { script, then_cap: 1 + (i as usize % 7) * 37 } } else { SinkSpec::Buffered { capacity: 7, script, then_cap: 3 + i as usize } } }
+        // mostly unbuffered sinks with a small fixed cap for the whole file: every multi-byte write is short
+        let cap = [1usize, 2, 3, 5, 7, 2, 3, 1, 4, 6, 2, 3][(i % 12) as usize];
+        Case { pairs: r.pairs(), set: r.values == 0, sink: if i % 6 != 5 { SinkSpec::Script { script, then_cap: cap } } else { SinkSpec::Buffered { capacity: 7, script, then_cap: cap } } }
     }).collect();
     e.run_list("files-over-64KiB-through-short-writing-sinks", &mediums, |c| json!({"n_keys": c.pairs.len(), "sink": c.to_json()["sink"]}), |c, rec| {
         rec.class("file_over_64KiB_through_scripted_sink");
         check(c, rec)
     });
+    e.require_class("bytes_written_checked_after_failed_insert", 1);
     for cls in ["short_write_or_interrupt_in_nodes_or_footer", "sink:bufwriter", "sink:cursor", "sink:prefilled_vec", "sink:&mut_vec"] {
         e.require_class(cls, 1);
     }
@@ -263,5 +309,8 @@ pub fn run(e: &Engine) {
 
 pub fn replay(_sub: &str, case: &Value) -> Option<CheckResult> {
     let mut rec = Rec::new(0);
+    if case.get("faulted").is_some() || case.get("n_keys").is_some() {
+        return None;
+    }
     Some(crate::engine::guarded(|| check(&Case::from_json(case).ok_or_else(bad)?, &mut rec)))
 }
